@@ -3653,7 +3653,9 @@ class BoutMesh(Mesh):
                 if f_region._centre_array is not None:
                     f.centre[self.region_indices[region.myID][0], :] = f_region.centre
                 if f_region._xlow_array is not None:
-                    f.xlow[self.region_indices[region.myID]] = f_region.xlow[:-1, :]
+                    f.xlow[self.region_indices[region.myID][0], :] = f_region.xlow[
+                        :-1, :
+                    ]
                 if f_region._ylow_array is not None:
                     raise ValueError("Cannot have an x-direction array at ylow")
                 if f_region._corners_array is not None:
